@@ -19,11 +19,11 @@ TokClasses == <<TokOp("lp"), TokOp("rp"), TokOp("not"), TokOp("comma"), TokOp("a
                 TokPrim(P1), TokPrim(P2), TokPrim(P3)>>
 \* concrete spellings
 Words == <<Cp("("), Cp(")"), Cp("!"), Cp(","), Cp("-a"), Cp("-and"), Cp("-o"), Cp("-or"),
-           Cp("-true"), Cp("-name x"), Cp("-print"), Cp("-depth")>>
+           Cp("-true"), Cp("-name x"), Cp("-print"), Cp("-depth"), Cp("-O")>>
 \* the 12th word is a scan-wide option: inside the expression it is a primary standing for -true
 \* (Lexer.tla RelocateOption); in front it belongs to the leading run and leaves no token
 
-NW == 12
+NW == 13
 Init == vSeq = <<>>
 Next == Len(vSeq) < MaxLen /\ \E c \in 1..NW : vSeq' = Append(vSeq, c)
 NextTok == Len(vSeq) < MaxLen /\ \E c \in 1..9 : vSeq' = Append(vSeq, c)
